@@ -15,15 +15,44 @@ def _fs(a):
 
 
 def body(desc, ctx):
+    """tables of a fresh mesh, then -- the tables being cached on the mesh object -- once more after a
+    battery of operations that return new meshes and must leave this one alone"""
     from ..cases import build_mesh
-    from ..oracle.topo import topo_of_mesh
     m = build_mesh(desc)
     kind = gm.mesh_kind(desc)
     feat = desc['feat']
     ctx.cls(desc['cls'], *[f for f in feat if f in ('delaunay', 'tensor', 'split', 'holes', 'extruded')])
     ctx.nt(any(f.startswith('renum') or f in ('local-order', 'delaunay', 'split', 'holes', 'extruded') for f in feat))
+    tables(desc, ctx, m, 'fresh')
+    if ctx.failures:
+        return
+    t0, p0 = m.t.copy(), m.p.copy()
+    try:
+        if kind in ('tri', 'tet') and desc['cls'].endswith('1'):
+            m.oriented()
+        if kind != 'wedge' and m.nelements <= 30:
+            m.refined()
+        if desc['cls'].endswith('1'):
+            m.restrict(np.arange(0, m.nelements, 2))
+            m.mirrored(tuple([1.0] + [0.0] * (m.dim() - 1)))
+            m.remove_unused_nodes()
+        m.translated(tuple([0.5] * m.dim()))
+        m.with_boundaries({'b': m.boundary_facets()[:1]}).with_subdomains({'s': np.array([0], dtype=np.int32)})
+        m.to_dict() if desc['cls'].endswith('1') and kind != 'wedge' else None
+    except NotImplementedError:
+        pass
+    if not np.array_equal(m.t, t0) or not np.array_equal(m.p, p0):
+        ctx.fail('cell_list_changed_by_operation', 'an operation returning a new mesh modified t or p of its operand',
+                 mesh=desc['cls'])
+    tables(desc, ctx, m, 'after-operations')
+
+
+def tables(desc, ctx, m, phase):
+    from ..oracle.topo import topo_of_mesh
+    kind = gm.mesh_kind(desc)
+    feat = desc['feat']
     T = topo_of_mesh(m)
-    sig = dict(mesh=desc['cls'])
+    sig = dict(mesh=desc['cls'], phase=phase)
     nc = m.nelements
     d = m.dim()
     nv = m.nvertices
